@@ -31,6 +31,7 @@ RULE = ("random sequences / coordinate lists x 28 entry points (object methods a
 RULE += ("; added after the mutation rounds: near-threshold compositions for N up to 260 (400) and 300..1000; numpy / tuple coordinate containers; coincident markers with different labels; non-ASCII labels and titles; file names with blanks / non-ASCII letters; no closing of figures between consecutive save calls; the first cases of every shard are judged again at its end")
 RULE += ("; round 5: label lists in which some entries are empty")
 RULE += ("; round 6: axis limits 0.35, 0.3, 0.1 (regions partly or wholly outside the view); homopolymers of every length 1-45 at the corners of both diagrams")
+RULE += ("; round 7: all documented arguments given positionally; label lists with a repeated name; complexity plots with word sizes 1, 2, 4")
 EXHAUSTIVE = {"quick": False, "thorough": False}
 EXHAUSTIVE_NOTE = {"quick": "region agreement: all (n+,n-,N) with N <= 40 under 4 limit settings",
                    "thorough": "region agreement: all (n+,n-,N) with N <= 90 under 4 limit settings"}
@@ -42,7 +43,7 @@ ASSUMPTIONS = [
 ]
 REQUIRED = {"all": ["figures", "saved_files", "getfig_returns", "phase_markers_checked", "uversky_markers_checked",
                     "multi_marker_figures", "labels_checked", "label_lists_with_some_empty_entries", "limits_below_one", "region_points_checked",
-                    "linear_bar_figures", "long_linear_plots", "net_negative_uversky_saves", "complexity_bar_figures", "numpy_coordinate_arguments", "coincident_markers", "near_threshold_large_N_cases", "figures_after_unclosed_save", "tiny_linear_plots", "homopolymer_figures", "homopolymer_corner_figures"]}
+                    "linear_bar_figures", "long_linear_plots", "net_negative_uversky_saves", "complexity_bar_figures", "numpy_coordinate_arguments", "coincident_markers", "near_threshold_large_N_cases", "figures_after_unclosed_save", "tiny_linear_plots", "homopolymer_figures", "homopolymer_corner_figures", "all_arguments_given_positionally", "label_lists_with_repeated_names", "complexity_plots_with_another_word_size"]}
 NFIG = {"quick": 640, "thorough": 4000}
 NMAX = {"quick": 40, "thorough": 90}
 LIMS = [1, 1, 0.5, 0.8, 2, 0.35, 0.3, 0.1]
@@ -221,7 +222,7 @@ def judge_regions(case, rep, S):
         rep.sample({"N": N, "polygons": [[(str(x), str(y)) for x, y in p] for p in polysets[0][1]]})
 
 
-_partly = [0]
+_partly = [0, 0]
 
 
 def rand_args(rng, multi=None):
@@ -234,6 +235,11 @@ def rand_args(rng, multi=None):
             label = ["s%d" % i for i in range(multi)]
             if rng.random() < 0.3:
                 label[0] = rng.choice(["\u03b1-syn", "A\u03b242", "prot\u00e9ine \u2116 1"])
+            if multi >= 2 and rng.random() < 0.25:
+                # the same name for more than one point (replicates, two constructs of one protein)
+                j_ = rng.randrange(1, multi)
+                label[j_] = label[rng.randrange(0, j_)]
+                _partly[1] += 1
             if multi >= 2 and rng.random() < 0.3:
                 # only some of the points are named
                 for i_ in rng.sample(range(multi), rng.randint(1, multi - 1)):
@@ -252,6 +258,13 @@ def rand_args(rng, multi=None):
     if rng.random() < 0.3:
         kw["fontSize"] = rng.choice([6, 10, 14])
     return label, kw
+
+
+def positional_tail(kind, label, kw, last, multi):
+    """The documented arguments in their documented order: label, title, legendOn, xLim, yLim, fontSize, getFig / saveFormat."""
+    default_title = "Diagram of states" if kind == "phase" else "Uversky plot"
+    return [label if label else ([] if multi else ""), kw.get("title", default_title), kw.get("legendOn", True), kw.get("xLim", 1),
+            kw.get("yLim", 1), kw.get("fontSize", 10), last]
 
 
 def check_scatter(rep, snap, kind, entry, coords, label, kw, multi):
@@ -274,6 +287,8 @@ def check_scatter(rep, snap, kind, entry, coords, label, kw, multi):
     else:
         want_texts = [label] if label else []
     rep.cnt("labels_checked")
+    if rep.counters.get("label_lists_with_repeated_names", 0) < _partly[1]:
+        rep.cnt("label_lists_with_repeated_names", _partly[1] - rep.counters.get("label_lists_with_repeated_names", 0))
     if rep.counters.get("label_lists_with_some_empty_entries", 0) < _partly[0]:
         rep.cnt("label_lists_with_some_empty_entries", _partly[0] - rep.counters.get("label_lists_with_some_empty_entries", 0))
     # empty annotations are not labels: compare the non-empty texts, in order
@@ -356,7 +371,15 @@ def judge_figure(case, rep, S):
             show, savef, kind = o.show_uverskyPlot, o.save_uverskyPlot, "uversky"
             if save and f.get_NCPR() < 0:
                 rep.cnt("net_negative_uversky_saves")
-        if save:
+        positional = rng.random() < 0.25
+        if positional:
+            rep.cnt("all_arguments_given_positionally")
+            kwp = {k_: v for k_, v in kw.items() if k_ != "label"}
+            if save:
+                snap = run_entry(rep, S, savef.__name__, lambda: savef(path, *positional_tail(kind, label, kwp, fmt, False)), path)
+            else:
+                snap = run_entry(rep, S, show.__name__, lambda: show(*positional_tail(kind, label, kwp, True, False)), None)
+        elif save:
             snap = run_entry(rep, S, savef.__name__, lambda: savef(path, saveFormat=fmt, **kw), path)
         else:
             snap = run_entry(rep, S, show.__name__, lambda: show(getFig=True, **kw), None)
@@ -428,7 +451,14 @@ def judge_figure(case, rep, S):
                 rep.cnt("numpy_coordinate_arguments")
         else:
             pos = [objs] if form < 0.7 else [tuple(objs)]
-        if save:
+        if rng.random() < 0.25:
+            rep.cnt("all_arguments_given_positionally")
+            multi_ = family != "mod_single"
+            if save:
+                snap = run_entry(rep, S, pname, lambda: fn(*pos, path, *positional_tail(kind, label, kw, fmt, multi_)), path)
+            else:
+                snap = run_entry(rep, S, pname, lambda: fn(*pos, *positional_tail(kind, label, kw, True, multi_)), None)
+        elif save:
             snap = run_entry(rep, S, pname, lambda: fn(*pos, path, saveFormat=fmt, **lab_kw, **kw), path)
         else:
             snap = run_entry(rep, S, pname, lambda: fn(*pos, getFig=True, **lab_kw, **kw), None)
@@ -467,11 +497,14 @@ def judge_figure(case, rep, S):
         w = rng.randint(1, min(len(seq), 12))
         st = rng.choice([1, 1, 2, 3])
         size = rng.choice([2, 4, 8, 20])
-        prof = np.asarray(SP(seq).get_linear_complexity(t, size, {}, w, st, 3), dtype=float)
+        ws = rng.choice([3, 3, 1, 2, 4])
+        if ws != 3:
+            rep.cnt("complexity_plots_with_another_word_size")
+        prof = np.asarray(SP(seq).get_linear_complexity(t, size, {}, w, st, ws), dtype=float)
         if save:
-            snap = run_entry(rep, S, "save_linearComplexity", lambda: o.save_linearComplexity(path, t, size, {}, w, st, 3, fmt), path)
+            snap = run_entry(rep, S, "save_linearComplexity", lambda: o.save_linearComplexity(path, t, size, {}, w, st, ws, fmt), path)
         else:
-            snap = run_entry(rep, S, "show_linearComplexity", lambda: o.show_linearComplexity(t, size, {}, w, st, 3, getFig=True), None)
+            snap = run_entry(rep, S, "show_linearComplexity", lambda: o.show_linearComplexity(t, size, {}, w, st, ws, getFig=True), None)
         if snap:
             rep.cnt("complexity_bar_figures")
             check_bars(rep, snap, "linearComplexity", seq, prof)
